@@ -376,8 +376,8 @@ pub fn debug_resource(path: &str) {
             for a in r.route().tour.all_activities() {
                 let id = a.retrieve_job().and_then(|j| j.dimens().get_job_id().cloned()).unwrap_or("-".into());
                 if id.contains("_reload_") {
-                    // only reloads of shifts that name a resource are shared (second shift in the analysed case)
-                    after_reload = true;
+                    // VERIF_SHARED_SUFFIX: only reloads whose id ends with it take from the shared resource
+                    after_reload = std::env::var("VERIF_SHARED_SUFFIX").map_or(true, |sfx| id.ends_with(&sfx));
                 }
                 let d = a.job.as_ref().and_then(|s| s.dimens.get_job_demand::<SingleDimLoad>().map(|d| d.delivery.0.value as i64).or_else(|| s.dimens.get_job_demand::<MultiDimLoad>().map(|d| d.delivery.0.load[0] as i64))).unwrap_or(0);
                 if after_reload {
